@@ -92,6 +92,11 @@ pub fn tap_node(i: usize) -> NodeCfg {
     NodeCfg { device_type: Type::Tap, mode: Mode::Normal, claims: vec![], auto_claim: false, tick_phase_ms: (i as u64 * 137) % 1000, ..Default::default() }
 }
 
+/// configured text of the address node j will get (usable before the node is added)
+pub fn node_text(j: usize, family: u8) -> String {
+    addr_text(super::world::node_addr(j, family))
+}
+
 pub fn peer_text(w: &World, n: usize) -> String {
     addr_text(w.nodes[n].addr)
 }
@@ -165,8 +170,10 @@ pub fn abstract_state(w: &World) -> u64 {
     h
 }
 
+/// An address nobody listens on (TEST-NET-1, IPv4-mapped as the dual-stack socket reports it).
+/// IPv4 because main.rs cannot take "[v6]:port" as a peer (it appends the default port).
 pub fn unknown_addr(k: u16) -> SocketAddr {
-    SocketAddr::new(std::net::IpAddr::V6(std::net::Ipv6Addr::new(0xfd00, 0, 0, 0xbad, 0, 0, 0, k)), 4000 + k)
+    crate::net::mapped_addr(SocketAddr::new(std::net::IpAddr::V4(Ipv4Addr::new(192, 0, 2, k as u8)), 4000 + k))
 }
 
 pub fn ipv4_of(i: usize) -> Ipv4Addr {
